@@ -12,7 +12,7 @@ from checks.rt_common import COMMON_ASSUMPTIONS
 
 KINDS = {"main": ["errors", "assert", "trunc-outs", "missing-key", "wrong-type"],
          "join": ["errors", "assert", "trunc-outs", "missing-key", "wrong-type"],
-         "split": ["errors", "assert", "bad-stage-defs"]}
+         "split": ["errors", "assert", "bad-stage-defs", "stale-defs"]}
 
 
 def fault_specs(progs, sem, tier, rng):
@@ -67,6 +67,71 @@ def fault_specs(progs, sem, tier, rng):
     return specs
 
 
+def retry_runs(tier, viols, rng):
+    import os
+    import procdrv
+    from concurrent.futures import ThreadPoolExecutor
+    root = procdrv.build_root()
+    q = [x for x in shapes.catalogue() if x["name"] == "chain"][0]
+    qsem, _ = psrun.semantics([q])
+    keys = ["TOP.A[]/main/0", "TOP.B[]/main/0"]
+    wd = vlib.scratch("retry")
+    cases = []
+    states = 0
+    for n in (0, 1, 2):
+        r = vlib.run_tlc("Retry", "Retry%d.cfg" % n, workdir=wd, workers=2, timeout=600)
+        if not r.ok:
+            raise vlib.Infra("Retry%d: %s" % (n, r.violation))
+        states += r.distinct
+        rows = [json.loads(l) for l in open(os.path.join(wd, "retry_rows_%d.ndjson" % n))]
+        # one representative per behaviour class: a job that never fails is the same whatever its kind
+        seen = set()
+        for row in rows:
+            sig = tuple((f["n"], f["transient"] if f["n"] else None) for f in row["fails"])
+            if sig in seen:
+                continue
+            seen.add(sig)
+            cases.append((n, row))
+    if tier == "quick":
+        rng.shuffle(cases)
+        keep = [c for c in cases if c[1]["status"] == 0 and sum(c[1]["execs"]) > 2][:4]
+        keep += [c for c in cases if c not in keep][:8]
+        cases = keep
+    base = vlib.scratch("c06r")
+
+    def one(i):
+        n, row = cases[i]
+        faults = {}
+        for key, f in zip(keys, row["fails"]):
+            if f["n"]:
+                faults[key] = "%s*%d" % ("signal" if f["transient"] else "exit", f["n"])
+        c = procdrv.Cycle(root, os.path.join(base, "r%d" % i), q, qsem[q["name"]], "retry%d" % i, delay_ms=5, faults=faults,
+                          extra_args=["--autoretry=%d" % n, "--retry-wait=1"])
+        rc_, dt = c.run(timeout=150)
+        evs = c.events()
+        execs = [sum(1 for e in evs if e.get("ev") == "StageBegin" and e.get("job") == k) for k in keys]
+        out = ""
+        try:
+            out = open(os.path.join(c.wd, "mrp.out"), errors="replace").read()[-2500:]
+        except OSError:
+            pass
+        c.cleanup()
+        return rc_, execs, out, c.mro, faults
+
+    with ThreadPoolExecutor(8) as ex:
+        results = list(ex.map(one, range(len(cases))))
+    report = []
+    for (n, row), (rc_, execs, out, mrosrc, faults) in zip(cases, results):
+        ok_status = (rc_ == 0) == (row["status"] == 0)
+        report.append({"autoretry": n, "fails": row["fails"], "model": [row["status"], row["execs"]], "mrp_exit": rc_, "executions": execs})
+        if rc_ == "timeout" or not ok_status or execs != row["execs"]:
+            viols.append({"key": "C06:retry:autoretry=%d:%s" % (n, json.dumps(faults, sort_keys=True)),
+                          "what": "mrp --autoretry=%d with jobs failing as %s: exit status %s, executions %s; the retry rules give status %d, executions %s" % (
+                              n, json.dumps(faults, sort_keys=True), rc_, execs, row["status"], row["execs"]),
+                          "replay": {"program.mro": mrosrc, "faults.json": json.dumps(faults), "mrp.out": out}})
+    return report, states
+
+
 def has_outs(inv):
     o = inv.get("outs") or {}
     return o.get("k") == "obj" and isinstance(o.get("o"), dict) and len(o["o"]) > 0
@@ -88,7 +153,7 @@ def run(tier, replay=None):
     n = {"quick": 12, "thorough": 120}[tier]
     # map_nested is left out: its top-level outputs are wrong even without a fault
     # (recorded finding of C01), which would only be reported again here
-    progs = [p for p in shapes.catalogue() if not p["name"].startswith("map_nested")] + [gen.gen_program(s) for s in range(n)]
+    progs = [p for p in shapes.catalogue() if not p["name"].startswith(("map_nested", "map_dyn_static"))] + [gen.gen_program(s) for s in range(n)]
     sem, semres = psrun.semantics(progs)
     vlib.go_build()
     specs = fault_specs(progs, sem, tier, rng)
@@ -115,6 +180,9 @@ def run(tier, replay=None):
                        "program.mro": s["mro"],
                        "trace.ndjson": "\n".join(json.dumps(e) for e in r["trace"]) + "\n"},
         })
+    # the retry budget (spec/Retry.tla): the model's table of exit status and executions per job,
+    # for a chain of two jobs with every failure profile, against real mrp processes
+    retry_report, retry_states = retry_runs(tier, viols, rng)
     # real processes: exit-status-only and signal deaths, with mrp's automatic retry
     # (cmd/mrp attemptRetry): a job that dies the same way every time must still
     # end the pipestance failed, naming the stage, with mrp exiting non-zero
@@ -176,7 +244,7 @@ def run(tier, replay=None):
         "programs": len(progs), "fault_runs": len(specs), "fault_kinds": kinds,
         "incarnation_outcomes": states,
         "monitor_records": len(records), "known_findings_hit": hit,
-        "process_runs_with_persistent_faults": proc_report,
+        "process_runs_with_persistent_faults": proc_report, "retry_table_runs": retry_report, "retry_model_states": retry_states,
     }, COMMON_ASSUMPTIONS + [
         "fault manifestations injected by the table-driven stage code: _errors, _assert, truncated _outs, missing output key, wrong JSON type, malformed _stage_defs; exit-status-only and signal deaths are produced by real stage processes under mrjob with the real mrp and its default automatic retry (4 process runs)",
         "after the failure mrp's exit is modelled as in cmd/mrp: Unlock, local jobs die; then a fresh Runtime re-attaches (ReattachToPipestance, Reset, RestartLocalJobs) with the fault removed",
